@@ -2,7 +2,7 @@
    non-vacuity examples. *)
 From Coq Require Import List NArith Sorting.Sorted.
 From C02 Require Import Model ModelTx ModelSealed CaseDefs ProofsNodes ProofsBorders ProofsIterate ProofsFold ProofsLeaf
-     ProofsSearch ProofsTx ProofsTx2 ProofsTx3 ProofsSealedIds ProofsSealed ProofsClamp.
+     ProofsSearch ProofsTx ProofsTx2 ProofsTx3 ProofsSealedIds ProofsSealed ProofsClamp ModelTxStep ProofsTxStep.
 Import ListNotations.
 Open Scope N_scope.
 
@@ -195,6 +195,49 @@ Theorem C02_hist_exact_tx :
   hist_tx (run ops) q from to rev hist = Ok (hist_spec (docs_of ops) q from to hist).
 Proof. exact (fun f => @hist_tx_script (Build_Matcher f)). Qed.
 Print Assumptions C02_hist_exact_tx.
+
+(* ================= GetLIDs is NOT atomic: take the queue, then sort + merge (ModelTxStep.v) ================= *)
+
+(* thm:C02_tx_getlids_two_step — TokenLIDs.GetLIDs takes the queue under queueMu and sorts/merges it later under
+   sortedMu only, while PutLIDsInQueue of the index workers runs under queueMu only. For EVERY interleaving of takes,
+   merges and puts (a schedule is any list of steps; a take while another reader is in the window, or a merge without
+   a take, does nothing — sortedMu), with the fresh-queue discipline of the code (`tl.queue = nil`: the taken slice is
+   private to the reader): once the open GetLIDs (if any) and one more complete GetLIDs have run, the queue is empty
+   and the sorted list is strictly ordered and holds exactly the LIDs ever put, each ONCE. *)
+Theorem C02_tx_getlids_two_step :
+  forall mids rids sched, (forall x, In x (puts_of sched) -> x <> max_u32) ->
+  let z := run2 Fresh mids rids (sched ++ settle) tl2_empty in
+  z_taken z = None /\ z_queue z = [] /\
+  StronglySorted (kgt mids rids) (z_sorted z) /\ NoDup (z_sorted z) /\
+  (forall x, In x (z_sorted z) <-> In x (puts_of sched)).
+Proof. exact getlids_two_step. Qed.
+Print Assumptions C02_tx_getlids_two_step.
+
+(* the one-step get_lids of ModelTx.v (over which C02_tx_postings / C02_search_exact_tx are stated) is take + merge
+   with nothing in between; by the theorem above puts that fall into the window are simply seen by the NEXT GetLIDs,
+   i.e. an interleaved execution ends in the state of the sequential one *)
+Theorem C02_tx_take_merge_is_get_lids :
+  forall mids rids tl, run2 Fresh mids rids [ZTake; ZMerge] (tl2_of tl) = tl2_of (get_lids mids rids tl).
+Proof. exact take_merge_is_get_lids. Qed.
+Print Assumptions C02_tx_take_merge_is_get_lids.
+
+(* the discipline matters: with the taken slice sharing its backing array with the live queue (`tl.queue =
+   tl.queue[:0]`, capacity 4) the schedule put [1;2]; take; put [3]; merge overwrites the taken cell holding LID 1:
+   after everything settled the token's list is [3;2] — document 1 is lost for good (seed C02-m12) *)
+Theorem C02_tx_getlids_shared_refuted :
+  exists mids rids sched,
+    (forall x, In x (puts_of sched) -> x <> max_u32) /\
+    let z := run2 (Shared 4) mids rids (sched ++ settle) tl2_empty in
+    In 1 (puts_of sched) /\ ~ In 1 (z_sorted z) /\ z_sorted z = [3; 2].
+Proof. exact getlids_shared_refuted. Qed.
+Print Assumptions C02_tx_getlids_shared_refuted.
+
+(* non-vacuity: the same schedule under the fresh discipline keeps all three *)
+Example C02_tx_two_step_nonvacuous :
+  z_sorted (run2 Fresh [max_u64; 10; 11; 12] [max_u64; 1; 1; 1] ([ZPut [1; 2]; ZTake; ZPut [3]; ZMerge] ++ settle) tl2_empty)
+    = [3; 2; 1] /\
+  z_sorted (run2 Fresh [max_u64; 10; 11; 12] [max_u64; 1; 1; 1] [ZPut [1; 2]; ZTake; ZPut [3]; ZMerge] tl2_empty) = [2; 1].
+Proof. split; vm_compute; reflexivity. Qed.
 
 (* ================= the provider's clamp (ModelSealed.v: clamp, info_of, provider_search, provider_search_tx) ================= *)
 
